@@ -441,8 +441,12 @@ func genWorkflowShape(r *mon.Rand, depth int) *shape {
 			case x < 11:
 				// a struct input put together from strings
 				nd.op, nd.in, nd.out, nd.ins = wn("S", ""), tIn, tStr, []WIn{inF(src.key, "X")}
-				if o := sources(tStr, src.key); len(o) > 0 && r.Prob(0.7) {
+				if o := sources(tStr, src.key); len(o) > 0 && r.Prob(0.6) {
 					nd.ins = append(nd.ins, inF(o[r.Intn(len(o))].key, "Y"))
+				} else if r.Prob(0.75) {
+					// the other field is a static value
+					nd.op.SV = "Y"
+					s.tag("static-value")
 				}
 				s.tag("mapped")
 			case x < 13:
@@ -707,6 +711,65 @@ func genChainOps(r *mon.Rand, depth int) ([]Op, []string) {
 
 // ---- compile options ---------------------------------------------------------------
 
+// nodeKeys: the keys of the nodes the calls declare (top level).
+func nodeKeys(ops []Op) []string {
+	set := map[string]bool{}
+	for _, o := range ops {
+		switch {
+		case o.K == "L", o.K == "P", o.K == "GN", o.K == "WN" && o.Typ != "":
+			if o.Key != "" && o.Key != "start" && o.Key != "end" {
+				set[o.Key] = true
+			}
+		}
+	}
+	return mon.SortedKeys(set)
+}
+
+// compileOptionKeys: like compileOption, with interrupt points now and then: on a node of the graph (keys; valid), or -
+// wantInvalid - on a key that names no node of it (a typo, START, END, one good and one bad key).
+func compileOptionKeys(r *mon.Rand, fe string, wantInvalid bool, keys []string) (opt string, tags []string) {
+	if wantInvalid && r.Prob(0.4) {
+		opt = compileOption(r, fe, false)
+		bad := mon.PickOne(r, []string{"zz", "zz", "end", "start", "node_9", "k"})
+		if len(keys) > 0 && r.Prob(0.3) {
+			bad = keys[r.Intn(len(keys))] + "," + bad
+		}
+		tok := mon.PickOne(r, []string{"ib=", "ia="}) + bad
+		if r.Prob(0.3) {
+			tok = "store+" + tok
+		}
+		if opt != "" {
+			if r.Bool() {
+				opt = opt + "+" + tok
+			} else {
+				opt = tok + "+" + opt
+			}
+		} else {
+			opt = tok
+		}
+		return opt, []string{"invalid-options", "unknown-interrupt-node"}
+	}
+	opt = compileOption(r, fe, wantInvalid)
+	if wantInvalid {
+		return opt, []string{"invalid-options"}
+	}
+	if fe == "chain" {
+		keys = []string{"node_0", "node_1"} // (whether they name a node depends on the chain: the reference knows)
+	}
+	if len(keys) > 0 && r.Prob(0.2) {
+		tok := mon.PickOne(r, []string{"ib=", "ia="}) + keys[r.Intn(len(keys))]
+		if r.Prob(0.3) {
+			tok += "+" + mon.PickOne(r, []string{"ib=", "ia="}) + keys[r.Intn(len(keys))]
+		}
+		if opt != "" {
+			opt += "+"
+		}
+		opt += tok
+		tags = append(tags, "interrupt-option")
+	}
+	return opt, tags
+}
+
 // compileOption draws an option set for a front end; about a third of them is not valid for it.
 func compileOption(r *mon.Rand, fe string, wantInvalid bool) string {
 	valid := map[string][]string{
@@ -814,10 +877,9 @@ func genBuilt(r *mon.Rand, depth int, fe string) builtShape {
 		}
 		b.tags = append(b.tags, "mutated")
 	}
-	b.opt = compileOption(r, fe, violation == "option")
-	if violation == "option" {
-		b.tags = append(b.tags, "invalid-options")
-	}
+	var otags []string
+	b.opt, otags = compileOptionKeys(r, fe, violation == "option", nodeKeys(b.ops))
+	b.tags = append(b.tags, otags...)
 	return b
 }
 
@@ -838,7 +900,10 @@ func genSub(r *mon.Rand, depth int) *Sub {
 			ops = append(ops, o)
 		}
 	}
-	return newSub(b.fe, ops, b.opt != "" || r.Prob(0.2), b.opt)
+	sub := newSub(b.fe, ops, b.opt != "" || r.Prob(0.2), b.opt)
+	// compiled standalone before it is added as a node, now and then
+	sub.Pre = r.Prob(0.15)
+	return sub
 }
 
 func shapeSeq(r *mon.Rand) *Seq {
@@ -851,10 +916,21 @@ func shapeSeq(r *mon.Rand) *Seq {
 	}
 	b := genBuilt(r, depth, pickFE(r))
 	ops := append([]Op(nil), b.ops...)
+	if r.Prob(0.12) && len(ops) > 1 {
+		// a Compile in the middle of the construction: it fails (something is still missing, or a bad option
+		// set is given on purpose) and must be without influence on what follows
+		pos := r.Range(len(ops)/2, len(ops))
+		k := K(mon.PickOne(r, []string{b.opt, compileOption(r, b.fe, true), compileOption(r, b.fe, false)}))
+		ops = append(ops[:pos:pos], append([]Op{k}, ops[pos:]...)...)
+		b.tags = append(b.tags, "early-compile")
+	}
 	ops = append(ops, K(b.opt))
 	if r.Prob(0.25) {
 		// Compile once more (a failing Compile does not poison the builder, the outcome must be the same)
 		ops = append(ops, K(mon.PickOne(r, []string{b.opt, b.opt, compileOption(r, b.fe, false), compileOption(r, b.fe, true)})))
+	}
+	if hasPre(ops) {
+		b.tags = append(b.tags, "nested-precompiled")
 	}
 	tags := sortedCopy(b.tags)
 	fam := "shape"
